@@ -99,9 +99,30 @@ def run(ctx):
     ok = len(loops) == 1 and '_attrs_with_bit_' in norm(loops[0].iter) and norm(loops[0].iter).endswith('%s._rbits_)' % cc.recv)
     ctx.ob('C20-CRIT.ranges-over-read-attributes', cc, loops[0] if loops else cc.node, ok, '' if ok else 'optimistic criteria are not built from the attributes with a read bit')
     txt = [norm(s) for s in walk_no_nested(cc.node) if isinstance(s, ast.stmt)]
-    ok = any(t == 'optimistic = attr.optimistic if attr.optimistic is not None else converters[0].optimistic' for t in txt) and \
-        any(t.startswith('if not optimistic:') and 'continue' in t for t in txt)
-    ctx.ob('C20-CRIT.exclusion-is-attr-or-converter-flag', cc, cc.node, ok, '' if ok else 'attributes are excluded from the optimistic check by something else than attr.optimistic / converter.optimistic')
+    # the flag that skips an attribute: attr.optimistic when it is given, the converter's default otherwise (evaluated for both cases)
+    from ..typestate import eval_test
+    def flag_under(given):
+        env = {}
+        def atom(text, node):
+            t = text.replace(' ', '')
+            if t == 'attr.optimisticisNone': return not given
+            if t == 'attr.optimisticisnotNone': return given
+            return None
+        def run(stmts):
+            for st in stmts:
+                if isinstance(st, ast.Assign) and len(st.targets) == 1 and isinstance(st.targets[0], ast.Name): env[st.targets[0].id] = norm(st.value)
+                elif isinstance(st, ast.If):
+                    v = eval_test(st.test, atom)
+                    if v is True: run(st.body)
+                    elif v is False: run(st.orelse)
+        run(loops[0].body if loops else [])
+        return env
+    skips = [st for st in (loops[0].body if loops else []) if isinstance(st, ast.If) and any(isinstance(x, ast.Continue) for x in st.body) and isinstance(st.test, ast.UnaryOp)
+             and isinstance(st.test.op, ast.Not) and isinstance(st.test.operand, ast.Name)]
+    ok = len(skips) == 1
+    if ok:
+        flag = skips[0].test.operand.id
+        ok = flag_under(True).get(flag) == 'attr.optimistic' and flag_under(False).get(flag) in ('converters[0].optimistic', 'attr.converters[0].optimistic')
     ok = any(t == 'dbval = %s._dbvals_[attr]' % cc.recv for t in txt) and any("'IS_NULL' if dbval is None else" in t for t in txt)
     ctx.ob('C20-CRIT.compares-with-value-read', cc, cc.node, ok, '' if ok else 'criteria do not compare with obj._dbvals_[attr] / NULL handled without IS_NULL')
     # ---------------------------------------------------------------- FLOW
@@ -113,11 +134,26 @@ def run(ctx):
     for s in walk_no_nested(su.node):
         if isinstance(s, ast.If) and any(callc[0].ast is b for b in s.body): gov = s
     ctx.need(gov is not None, 'C20: governing test of the optimistic branch not found')
-    t = gov.test
-    conj = [norm(v) for v in t.values] if isinstance(t, ast.BoolOp) and isinstance(t.op, ast.And) else [norm(t)]
-    sess = [s for s in walk_no_nested(su.node) if isinstance(s, ast.Assign) and any(dotted(x) == 'optimistic_session' for x in s.targets)]
-    ok = sorted(conj) == sorted(['optimistic_session', '%s not in cache.for_update' % su.recv]) and len(sess) == 1 and \
-        norm(sess[0].value) == 'cache.db_session is None or cache.db_session.optimistic'
+    # the optimistic branch is taken exactly when (no db_session or an optimistic one) and the object is not locked -- evaluated over the 2x2x2
+    # combinations of the three atoms, with local flags resolved (so `optimistic_session = ...; if optimistic_session and ...` and the inlined
+    # condition are the same thing)
+    from ..typestate import eval_test, resolve_flags
+    t = resolve_flags(su.node, gov.test)
+    ok = True
+    for none_ in (True, False):
+        for opt in (True, False):
+            for locked in (True, False):
+                def atom(text, node, none_=none_, opt=opt, locked=locked):
+                    x = text.replace(' ', '')
+                    if x == 'cache.db_sessionisNone': return none_
+                    if x == 'cache.db_sessionisnotNone': return not none_
+                    if x == 'cache.db_session.optimistic': return opt
+                    if x == '%snotincache.for_update' % su.recv: return not locked
+                    if x == '%sincache.for_update' % su.recv: return locked
+                    return None
+                want = (none_ or opt) and not locked
+                if eval_test(t, atom) is not want: ok = False
+    sess = []
     ctx.ob('C20-FLOW.exemption-is-exactly-nonoptimistic-or-locked', su, gov, ok,
            '' if ok else 'the optimistic check is skipped under `not (%s)` with optimistic_session = %s' % (norm(t), [norm(s.value) for s in sess]),
            expected='if optimistic_session and obj not in cache.for_update')
